@@ -275,12 +275,21 @@ pub struct Stats {
 fn wait_released(live: &LiveNode, db: &str, keys: &[String], base_conn: usize) -> Option<String> {
     let deadline = Instant::now() + Duration::from_secs(5);
     loop {
-        let (conn, leftover) = {
-            let map = live.dbs.map.read().unwrap();
-            let d = map.get(db).unwrap();
-            let w = d.watchers.map.read().unwrap();
+        // never block on the node's locks: a wedged node (a lock held forever) must end in a report, not in a hang
+        let observed = (|| {
+            let map = live.dbs.map.try_read().ok()?;
+            let d = map.get(db)?;
+            let w = d.watchers.map.try_read().ok()?;
             let left: Vec<String> = keys.iter().filter(|k| w.get(*k).map(|s| !s.is_empty()).unwrap_or(false)).cloned().collect();
-            (d.connections_count(), left)
+            let c = d.connections.try_read().ok().map(|c| c.load(std::sync::atomic::Ordering::Relaxed))?;
+            Some((c, left))
+        })();
+        let Some((conn, leftover)) = observed else {
+            if Instant::now() > deadline {
+                return Some("node-state-not-readable-a-lock-is-held".to_string());
+            }
+            std::thread::sleep(Duration::from_millis(3));
+            continue;
         };
         if conn == base_conn && leftover.is_empty() {
             return None;
@@ -357,6 +366,7 @@ pub fn run(tier: &str) -> i32 {
                 let dbname = format!("h{}", w);
                 let mut base_conn = base_conn;
                 let mut release_failures = 0;
+                let mut unanswered = 0;
                 loop {
                     let i = next.fetch_add(1, std::sync::atomic::Ordering::SeqCst);
                     if i >= bodies.len() {
@@ -392,6 +402,11 @@ pub fn run(tier: &str) -> i32 {
                         Ok(r) => r,
                         Err(e) => {
                             v.report(json!({"check": "http", "problem": "request-not-answered"}), json!({"body": body, "error": e}));
+                            // a server that stopped answering costs the full time-out per request: give up on it
+                            unanswered += 1;
+                            if unanswered >= 3 {
+                                break;
+                            }
                             continue;
                         }
                     };
@@ -461,7 +476,7 @@ pub fn run(tier: &str) -> i32 {
                         v.report(json!({"check": "http", "problem": r}), json!({"body": body, "watched": watched}));
                         // what leaked stays leaked: re-base, so that the next request is judged on its own, and give up on a
                         // node that keeps leaking (every wait costs its full time-out)
-                        base_conn = { live.dbs.map.read().unwrap().get(&dbname).map(|d| d.connections_count()).unwrap_or(base_conn) };
+                        base_conn = live.dbs.map.try_read().ok().and_then(|m| m.get(&dbname).and_then(|d| d.connections.try_read().ok().map(|c| c.load(std::sync::atomic::Ordering::Relaxed)))).unwrap_or(base_conn);
                         release_failures += 1;
                         if release_failures >= 5 {
                             break;
